@@ -639,16 +639,17 @@ theorem skipTo_junk (cfg : LexCfg) (ds : List Byte) (junk : List Byte) (hj : ∀
 
 theorem skipToRec_junk (cfg : LexCfg) (ds : List Byte) (junk : List Byte) (hj : ∀ b ∈ junk, delimAt cfg ds b = false)
     (hsemi : ∀ b ∈ junk, b ≠ 59) (d : Byte) (hd : delimAt cfg ds d = true) (rest : List Byte) :
-    ∀ (q : Bool) (c : Byte) (l : List Byte),
-      skipToRec cfg ds q c l (junk ++ d :: rest) = (d, d :: (junk.reverse ++ l), rest, false, false) := by
+    ∀ (c : Byte) (l : List Byte),
+      skipToRec cfg ds c l (junk ++ d :: rest) = (d, d :: (junk.reverse ++ l), rest, false, false) := by
   induction junk with
-  | nil => intro q c l; simp [skipToRec, hd]
+  | nil => intro c l; simp [skipToRec, hd]
   | cons b t ih =>
-    intro q c l
+    intro c l
     have hb : delimAt cfg ds b = false := hj b (by simp)
     have h59 : (b == 59) = false := by simpa using hsemi b (by simp)
-    simp only [List.cons_append, skipToRec, hb, Bool.false_eq_true, if_false, h59, Bool.false_and]
-    split <;> (rw [ih (fun x hx => hj x (by simp [hx])) (fun x hx => hsemi x (by simp [hx]))]; simp)
+    simp only [List.cons_append, skipToRec, hb, Bool.false_eq_true, if_false, h59]
+    rw [ih (fun x hx => hj x (by simp [hx])) (fun x hx => hsemi x (by simp [hx]))]
+    simp
 
 /-- the recovery loop of either shape over a text without delimiters (and without `;` where the loop ends at one) -/
 theorem skipGarbage_junk (cfg : LexCfg) (ds : List Byte) (junk : List Byte) (hj : ∀ b ∈ junk, delimAt cfg ds b = false)
@@ -658,7 +659,7 @@ theorem skipGarbage_junk (cfg : LexCfg) (ds : List Byte) (junk : List Byte) (hj 
   unfold skipGarbage
   cases hs : cfg.criStopsAtSemicolon
   · simp [skipTo_junk cfg ds junk hj d hd rest c l]
-  · simp [skipToRec_junk cfg ds junk hj (hsemi hs) d hd rest false c l]
+  · simp [skipToRec_junk cfg ds junk hj (hsemi hs) d hd rest c l]
 
 /-- a text without delimiters (and, where NUL counts as one, without NUL; without `;` where the recovery loop ends at one)
     that starts with neither a blank nor `/`, in front of a delimiter: everything up to the delimiter is skipped as
